@@ -490,6 +490,625 @@ static void runProj(const ProjCase& c, Ctx& ctx)
 }
 VERIF_SUB(proj, ProjCase, genProj, runProj);
 
-#include "c15_spde_part2.hpp"
+// =====================================================================================
+// shared: data / targets inside the mesh, conditional system M = diag(Q_i) + [A_i]' D^-1 [A_j]
+// =====================================================================================
+struct CondSystem
+{
+  int N = 0;
+  std::vector<int> off;     // offset of each structure
+  Dense M, L;               // matrix and its Cholesky factor
+  std::vector<LD> b, u;     // rhs = A' D^-1 z and exact solution
+  LD normM = 0, lmin = 0, kappa = 0;
+};
+// Qs[i]: precision of structure i (n_i x n_i), As[i]: projection (ndat x n_i), dinv: 1/variance per datum
+static bool buildSystem(const std::vector<Sp>& Qs, const std::vector<Sp>& As, const std::vector<LD>& dinv, const std::vector<LD>& z, CondSystem& C)
+{
+  int ns = (int)Qs.size(), nd = (int)dinv.size();
+  C.off.assign((size_t)ns + 1, 0);
+  for (int i = 0; i < ns; i++) C.off[(size_t)i + 1] = C.off[(size_t)i] + Qs[(size_t)i].nr;
+  C.N = C.off[(size_t)ns];
+  C.M = Dense(C.N);
+  for (int i = 0; i < ns; i++)
+    for (int r = 0; r < Qs[(size_t)i].nr; r++)
+      for (auto& e : Qs[(size_t)i].row[(size_t)r]) C.M.at(C.off[(size_t)i] + r, C.off[(size_t)i] + e.first) += e.second;
+  for (int k = 0; k < nd; k++)
+    for (int i = 0; i < ns; i++)
+      for (auto& ei : As[(size_t)i].row[(size_t)k])
+        for (int j = 0; j < ns; j++)
+          for (auto& ej : As[(size_t)j].row[(size_t)k])
+            C.M.at(C.off[(size_t)i] + ei.first, C.off[(size_t)j] + ej.first) += ei.second * dinv[(size_t)k] * ej.second;
+  C.b.assign((size_t)C.N, 0.L);
+  for (int k = 0; k < nd; k++)
+    for (int i = 0; i < ns; i++)
+      for (auto& e : As[(size_t)i].row[(size_t)k]) C.b[(size_t)(C.off[(size_t)i] + e.first)] += e.second * dinv[(size_t)k] * z[(size_t)k];
+  C.L = C.M;
+  if (!cholFactor(C.L)) return false;
+  C.u = C.b;
+  cholSolve(C.L, C.u);
+  C.normM = C.M.normInf();
+  C.lmin = lambdaMin(C.L);
+  C.kappa = C.normM / C.lmin;
+  return true;
+}
+// number of iterations of plain conjugate gradients on M with the library's stopping rule
+// (|r|^2 / nb <= eps), used only to recognise runs that end on the iteration cap
+static int cgIterations(const CondSystem& C, double nb, double eps, int cap)
+{
+  int N = C.N;
+  std::vector<LD> x((size_t)N, 0.L), r = C.b, p = C.b, Ap;
+  LD rs = 0;
+  for (auto v : r) rs += v * v;
+  int it = 0;
+  while (it < cap && rs / (LD)nb > (LD)eps)
+  {
+    it++;
+    C.M.mul(p, Ap);
+    LD pAp = 0;
+    for (int i = 0; i < N; i++) pAp += p[(size_t)i] * Ap[(size_t)i];
+    LD al = rs / pAp, rn = 0;
+    for (int i = 0; i < N; i++) { x[(size_t)i] += al * p[(size_t)i]; r[(size_t)i] -= al * Ap[(size_t)i]; rn += r[(size_t)i] * r[(size_t)i]; }
+    for (int i = 0; i < N; i++) p[(size_t)i] = r[(size_t)i] + rn / rs * p[(size_t)i];
+    rs = rn;
+  }
+  return it;
+}
+
+struct DataSpec
+{
+  std::vector<PtSpec> pts;
+  std::vector<double> z;     // in units of zscale
+  std::vector<int> zna, sel;
+  std::vector<double> verr;  // in units of the total sill; < 0 = undefined
+  int useSel = 0, useVerr = 0;
+  double zscale = 1;
+  template<class A> void io(A& a) { a("pts", pts)("z", z)("zna", zna)("sel", sel)("verr", verr)("useSel", useSel)("useVerr", useVerr)("zscale", zscale); }
+};
+static DataSpec genData(const MeshSpec& m, int nmax, bool layouts)
+{
+  DataSpec d;
+  int n = G::sz(2, nmax);
+  d.zscale = G::pick<double>({1e-6, 1e-3, 1., 1., 1., 1e3, 1e6});
+  d.useSel = layouts && G::pct(25);
+  d.useVerr = layouts && G::pct(25);
+  for (int i = 0; i < n; i++)
+  {
+    PtSpec p = genPt(m, 0, false);
+    p.type = 0;
+    d.pts.push_back(p);
+    d.z.push_back(G::r(-3, 3, 100));
+    d.zna.push_back((layouts && i > 0 && G::pct(12)) ? 1 : 0);
+    d.sel.push_back((d.useSel && i > 0 && G::pct(25)) ? 0 : 1);
+    d.verr.push_back(G::pct(15) ? -1. : G::pick<double>({0., 1e-4, 0.01, 0.1, 1.}));
+  }
+  return d;
+}
+
+// =====================================================================================
+// sub-property "kriging": (d) krigingSPDE / quadratic term, Cholesky vs conjugate gradients
+// =====================================================================================
+struct KrigCase
+{
+  MeshSpec mesh;
+  std::vector<CovSpec> covs;
+  double nugget = 0; // in units of the first sill
+  int autoMesh = 0, refine = 1, border = 1, eigen = 1;
+  DataSpec data;
+  std::vector<PtSpec> targ;
+  template<class A> void io(A& a) { a("mesh", mesh)("covs", covs)("nugget", nugget)("autoMesh", autoMesh)("refine", refine)("border", border)("eigen", eigen)("data", data)("targ", targ); }
+};
+static KrigCase genKrig()
+{
+  KrigCase c;
+  c.autoMesh = G::pct(25);
+  c.mesh = genMeshSpec(c.autoMesh ? 49 : 150, {0, 0, 1, 2}, c.autoMesh ? 7 : 14);
+  if (c.mesh.ndim == 3) c.autoMesh = 0;
+  c.data = genData(c.mesh, 25, true);
+  double sill = c.data.zscale * c.data.zscale;
+  int nc = G::pct(30) ? 2 : 1;
+  for (int k = 0; k < nc; k++) c.covs.push_back(genCov(c.mesh.ndim, c.mesh.cell(), sill, false));
+  c.nugget = G::pct(40) ? G::pick<double>({0.001, 0.05, 0.5}) : 0.;
+  c.refine = G::i(1, 2);
+  c.border = G::i(1, 3);
+  c.eigen = 1;
+  int nt = G::sz(1, 12);
+  for (int i = 0; i < nt; i++) { PtSpec p = genPt(c.mesh, 0, false); p.type = 0; c.targ.push_back(p); }
+  return c;
+}
+static const double kCgEps = 1e-8; // default of ALinearOpMulti / CGParam (EPSILON8), not changed by SPDE
+
+static void runKrig(const KrigCase& c, Ctx& ctx)
+{
+  int ndim = c.mesh.ndim;
+  resetGlobals(ndim, c.eigen != 0);
+  ctx.label(std::string("mesh:") + (c.autoMesh ? "auto" : kindName(c.mesh.kind)));
+  ctx.label(fmt("ndim:%d", ndim));
+  ctx.label(fmt("ncov:%d", (int)c.covs.size()));
+  Built B;
+  if (!buildMesh(c.mesh, B, ctx)) return;
+  // data and targets
+  int np = (int)c.data.pts.size();
+  std::vector<std::vector<double>> xd, xt;
+  for (auto& p : c.data.pts) xd.push_back(resolvePt(c.mesh, B, p).x);
+  for (auto& p : c.targ) xt.push_back(resolvePt(c.mesh, B, p).x);
+  double totalSill = 0;
+  for (auto& cv : c.covs) totalSill += cv.sill;
+  double nug = c.nugget * c.covs[0].sill;
+  ctx.at("Db");
+  std::unique_ptr<Db> dbin(makeDb(ndim, xd)), dbout(makeDb(ndim, xt));
+  VectorDouble z((size_t)np), ve((size_t)np), se((size_t)np);
+  std::vector<LD> zc;
+  std::vector<int> act;
+  for (int i = 0; i < np; i++)
+  {
+    z[i] = c.data.zna[(size_t)i] ? TEST : c.data.zscale * c.data.z[(size_t)i];
+    ve[i] = (c.data.verr[(size_t)i] < 0) ? TEST : c.data.verr[(size_t)i] * totalSill;
+    se[i] = c.data.sel[(size_t)i];
+    if (c.data.zna[(size_t)i] || (c.data.useSel && !c.data.sel[(size_t)i])) continue;
+    act.push_back(i);
+    zc.push_back((LD)z[i]);
+  }
+  dbin->addColumns(z, "z1", ELoc::Z, 0);
+  if (c.data.useVerr) dbin->addColumns(ve, "v1", ELoc::V, 0);
+  if (c.data.useSel) dbin->addColumns(se, "sel", ELoc::SEL, 0);
+  int nd = (int)act.size();
+  if (nd == 0) { ctx.inconclusive("no-data"); return; }
+  ctx.label(c.data.useVerr ? "layout:verr" : (nug > 0 ? "layout:nugget" : "layout:plain"));
+  ctx.at("Model");
+  std::unique_ptr<Model> model(buildModel(ndim, c.covs, nug));
+  if (!model) { ctx.fail("model-null", "model construction failed"); return; }
+  SPDEParam params(c.refine, 18, c.border);
+  const AMesh* userMesh = c.autoMesh ? nullptr : B.mesh;
+  const Db* domain = c.autoMesh ? (const Db*)B.grid.get() : (const Db*)dbout.get();
+  int ns = (int)c.covs.size();
+
+  ctx.at("SPDE(useCholesky=1)");
+  SPDE s1(model.get(), domain, dbin.get(), ESPDECalcMode::KRIGING, userMesh, 1, params);
+  ctx.at("SPDE::compute(useCholesky=1)");
+  int u1 = s1.compute(dbout.get());
+  VectorDouble est1 = dbout->getColumnByUID(u1);
+  int nt = (int)xt.size();
+  if ((int)est1.size() != nt) { ctx.fail("krig:output-size", fmt("%d estimates for %d targets", (int)est1.size(), nt)); return; }
+  // the pieces of the system as held by the Cholesky-mode object
+  std::vector<Sp> Qs((size_t)ns), As((size_t)ns), Ao((size_t)ns);
+  int total = 0;
+  for (int i = 0; i < ns; i++)
+  {
+    const PrecisionOpCs* p = s1.getPrecisionOpCs(i);
+    const ProjMatrix* a = s1.getProjMatrix(i);
+    const AMesh* me = s1.getMeshingKrig(i);
+    if (p == nullptr || a == nullptr || me == nullptr || p->getQ() == nullptr) { ctx.fail("krig:pieces-null", "SPDE object without precision / projection / mesh"); return; }
+    total += me->getNApices();
+    if (total > 460) { ctx.inconclusive("mesh-too-large-for-dense-bound"); return; }
+    if (!spFrom(p->getQ(), Qs[(size_t)i]) || !spFrom(a, As[(size_t)i])) { ctx.fail("krig:pieces-shape", "cannot read Q / A"); return; }
+    if (As[(size_t)i].nr != nd || As[(size_t)i].nc != Qs[(size_t)i].nr) { ctx.fail("krig:proj-shape", fmt("data projection %d x %d for %d data and %d apices", As[(size_t)i].nr, As[(size_t)i].nc, nd, Qs[(size_t)i].nr)); return; }
+    for (int k = 0; k < nd; k++)
+    {
+      LD sum = 0;
+      for (auto& e : As[(size_t)i].row[(size_t)k]) sum += e.second;
+      if (!(fabsl(sum - 1.L) <= 1e-6L)) { ctx.inconclusive("datum-outside-auto-mesh"); return; }
+    }
+    ctx.at("ProjMatrix(dbout,mesh)");
+    ProjMatrix po(dbout.get(), me);
+    if (!spFrom(&po, Ao[(size_t)i]) || Ao[(size_t)i].nr != nt) { ctx.fail("krig:target-proj-shape", "target projection has a wrong shape"); return; }
+  }
+  VectorDouble var = s1.getPrecisionKrig()->getAllVarianceData();
+  if ((int)var.size() != nd) { ctx.fail("krig:variance-size", fmt("%d data variances for %d active defined data", (int)var.size(), nd)); return; }
+  std::vector<LD> dinv;
+  for (int k = 0; k < nd; k++)
+  {
+    if (!(var[k] > 0)) { ctx.fail("krig:variance-sign", fmt("data variance %g", var[k])); return; }
+    dinv.push_back(1.L / (LD)var[k]);
+  }
+  CondSystem C;
+  if (!buildSystem(Qs, As, dinv, zc, C)) { ctx.fail("krig:system-not-PD", "Q + A'D^-1A is not positive definite"); return; }
+  if (C.kappa > 1e10L) { ctx.inconclusive("ill-conditioned"); return; }
+  ctx.label(C.kappa > 1e6 ? "kappa:>1e6" : "kappa:<1e6");
+  LD nb2 = norm2(C.b);
+  ctx.label(nb2 < 1 ? "rhs-norm:<1" : "rhs-norm:>=1");
+  // reference estimates and the vectors M^-1 a_j
+  std::vector<LD> ref((size_t)nt, 0.L), amp((size_t)nt, 0.L);
+  LD emax = 0;
+  for (int j = 0; j < nt; j++)
+  {
+    std::vector<LD> a((size_t)C.N, 0.L);
+    for (int i = 0; i < ns; i++)
+      for (auto& e : Ao[(size_t)i].row[(size_t)j]) a[(size_t)(C.off[(size_t)i] + e.first)] += e.second;
+    for (int k = 0; k < C.N; k++) ref[(size_t)j] += a[(size_t)k] * C.u[(size_t)k];
+    cholSolve(C.L, a);
+    amp[(size_t)j] = norm2(a);
+    emax = std::max(emax, fabsl(ref[(size_t)j]));
+  }
+  LD round = 1e3L * C.kappa * 2.220446e-16L;
+  for (int j = 0; j < nt; j++)
+    if (!(fabsl((LD)est1[j] - ref[(size_t)j]) <= round * emax + 1e-300L))
+    { ctx.fail("krig:chol-vs-dense", fmt("target %d: useCholesky=1 gives %.17g, the documented system gives %.17Lg (kappa %Lg)", j, est1[j], ref[(size_t)j], C.kappa)); return; }
+  ctx.at("SPDE::computeQuad(useCholesky=1)");
+  double q1 = s1.computeQuad();
+  LD zdz = 0, bu = 0;
+  for (int k = 0; k < nd; k++) zdz += zc[(size_t)k] * zc[(size_t)k] * dinv[(size_t)k];
+  for (int k = 0; k < C.N; k++) bu += C.b[(size_t)k] * C.u[(size_t)k];
+  LD qref = zdz - bu;
+  if (!(fabsl((LD)q1 - qref) <= round * zdz + 1e-300L))
+  { ctx.fail("quad:chol-vs-dense", fmt("quadratic term %.17g, reference %.17Lg (z'D^-1z = %Lg)", q1, qref, zdz)); return; }
+
+  // iterative mode
+  ctx.at("SPDE(useCholesky=0)");
+  SPDE s0(model.get(), domain, dbin.get(), ESPDECalcMode::KRIGING, userMesh, 0, params);
+  ctx.at("SPDE::compute(useCholesky=0)");
+  int u0 = s0.compute(dbout.get());
+  VectorDouble est0 = dbout->getColumnByUID(u0);
+  if ((int)est0.size() != nt) { ctx.fail("krig:output-size", fmt("%d estimates for %d targets", (int)est0.size(), nt)); return; }
+  ctx.at("SPDE::computeQuad(useCholesky=0)");
+  double q0 = s0.computeQuad();
+  // iteration cap: the library stops on |r|^2 / sum_i |b_i| <= eps or 1000 iterations
+  double nbLib = 0;
+  for (int i = 0; i < ns; i++)
+  {
+    LD s = 0;
+    for (int k = C.off[(size_t)i]; k < C.off[(size_t)i + 1]; k++) s += C.b[(size_t)k] * C.b[(size_t)k];
+    nbLib += (double)sqrtl(s);
+  }
+  if (nbLib > 0 && cgIterations(C, nbLib, kCgEps, 1000) >= 800) { ctx.inconclusive("cg-near-iteration-cap"); return; }
+  // |r| <= tau |b| with tau = sqrt(eps) (squared-norm criterion |r|^2 <= eps |b|^2)
+  LD tau = sqrtl((LD)kCgEps);
+  for (int j = 0; j < nt; j++)
+  {
+    LD bound = tau * nb2 * amp[(size_t)j] * 1.01L + 2 * round * emax + 1e-300L;
+    if (!(fabsl((LD)est0[j] - (LD)est1[j]) <= bound))
+    {
+      ctx.fail("krig:chol-vs-cg", fmt("target %d: Cholesky %.17g, conjugate gradients %.17g, |diff| %.3Lg > bound %.3Lg = sqrt(eps)|b||M^-1 a| (|b| = %Lg)", j, est1[j], est0[j],
+                                      fabsl((LD)est0[j] - (LD)est1[j]), bound, nb2));
+      return;
+    }
+  }
+  {
+    LD bound = tau * nb2 * norm2(C.u) * 1.01L + 2 * round * zdz + 1e-300L;
+    if (!(fabsl((LD)q0 - (LD)q1) <= bound))
+    { ctx.fail("quad:chol-vs-cg", fmt("quadratic term: Cholesky %.17g, conjugate gradients %.17g, bound %.3Lg (|b| = %Lg)", q1, q0, bound, nb2)); return; }
+  }
+  ctx.nontrivial(nontrivialGeom(c.mesh, c.covs) || c.autoMesh);
+  ctx.sig = Hash().add(ndim).add(c.autoMesh ? 9 : c.mesh.kind).add(C.N).add(nd).add(nt).add(ns).addq(c.data.zscale).addq(c.covs[0].param).add(c.data.useVerr).add(c.data.useSel).h;
+}
+VERIF_SUB(kriging, KrigCase, genKrig, runKrig);
+
+// =====================================================================================
+// sub-property "solves": (e) every solve satisfies its system
+// =====================================================================================
+struct SolveCase
+{
+  MeshSpec mesh;
+  std::vector<CovSpec> covs;
+  DataSpec data;
+  std::vector<double> var; // per datum, in units of the total sill
+  double nugget = 0;
+  int epsExp = 8, tolExp = 8, eigen = 1;
+  std::vector<double> x;
+  template<class A> void io(A& a) { a("mesh", mesh)("covs", covs)("data", data)("var", var)("nugget", nugget)("epsExp", epsExp)("tolExp", tolExp)("eigen", eigen)("x", x); }
+};
+static SolveCase genSolve()
+{
+  SolveCase c;
+  c.mesh = genMeshSpec(150, {0, 0, 1, 2});
+  c.data = genData(c.mesh, 25, false);
+  double sill = c.data.zscale * c.data.zscale;
+  int nc = G::pct(30) ? 2 : 1;
+  for (int k = 0; k < nc; k++) c.covs.push_back(genCov(c.mesh.ndim, c.mesh.cell(), sill, false));
+  double vs = G::pick<double>({0.01, 0.1, 1., 10.});
+  for (size_t i = 0; i < c.data.pts.size(); i++) c.var.push_back(vs * G::r(1, 20, 1) / 10.);
+  c.nugget = G::pct(50) ? G::pick<double>({0.001, 0.05, 0.5}) : 0.;
+  c.epsExp = G::pick<int>({4, 6, 8, 8, 10, 12});
+  c.tolExp = G::pick<int>({3, 5, 8, 10});
+  // csparse storage only with one structure: with two, MatrixSparse::glue loses the trailing empty columns of
+  // the projection matrices and PrecisionOpMultiConditionalCs overruns a buffer (recorded finding, the
+  // process dies, so the region is excluded here by construction)
+  c.eigen = (nc == 1 && G::pct(25)) ? 0 : 1;
+  for (int i = 0; i < 40; i++) c.x.push_back(G::r(-8, 8, 8));
+  return c;
+}
+static bool residualOK(Ctx& ctx, const std::string& key, const CondSystem& C, const std::vector<LD>& b, const std::vector<double>& x, LD tol2, const std::string& what)
+{
+  std::vector<LD> xl = toLD(x), r;
+  C.M.mul(xl, r);
+  for (int i = 0; i < C.N; i++) r[(size_t)i] -= b[(size_t)i];
+  LD res = norm2(r), nb = norm2(b);
+  LD floor = 1e-9L * sqrtl((LD)C.N) * (C.normM * normInfV(xl) + normInfV(b));
+  if (!(res <= tol2 * nb + floor))
+  {
+    ctx.fail(key, what + fmt(": |Mx-b| = %.4Lg, |b| = %.4Lg, relative %.3Lg, admitted %.3Lg (+ round-off %.3Lg)", res, nb, res / nb, tol2, floor));
+    return false;
+  }
+  return true;
+}
+static void runSolve(const SolveCase& c, Ctx& ctx)
+{
+  int ndim = c.mesh.ndim;
+  resetGlobals(ndim, c.eigen != 0);
+  ctx.label(std::string("mesh:") + kindName(c.mesh.kind));
+  ctx.label(fmt("ndim:%d", ndim));
+  ctx.label(c.eigen ? "storage:eigen" : "storage:cs");
+  Built B;
+  if (!buildMesh(c.mesh, B, ctx)) return;
+  int nd = (int)c.data.pts.size(), ns = (int)c.covs.size(), n = B.nap;
+  std::vector<std::vector<double>> xd;
+  for (auto& p : c.data.pts) xd.push_back(resolvePt(c.mesh, B, p).x);
+  double totalSill = 0;
+  for (auto& cv : c.covs) totalSill += cv.sill;
+  ctx.at("Db");
+  std::unique_ptr<Db> db(makeDb(ndim, xd));
+  VectorDouble z((size_t)nd);
+  std::vector<LD> zc;
+  for (int i = 0; i < nd; i++) { z[i] = c.data.zscale * c.data.z[(size_t)i]; zc.push_back((LD)z[i]); }
+  db->addColumns(z, "z1", ELoc::Z, 0);
+  ctx.at("Model");
+  std::unique_ptr<Model> model(buildModel(ndim, c.covs, c.nugget * c.covs[0].sill));
+  if (!model) { ctx.fail("model-null", "model construction failed"); return; }
+  // operators of each structure on the same mesh
+  std::vector<std::unique_ptr<PrecisionOp>> pops;
+  std::vector<std::unique_ptr<PrecisionOpCs>> pcss;
+  std::vector<std::unique_ptr<ProjMatrix>> projs, projs2;
+  std::vector<Sp> Qs((size_t)ns), As((size_t)ns);
+  for (int i = 0; i < ns; i++)
+  {
+    ctx.at("PrecisionOp / PrecisionOpCs / ProjMatrix");
+    pops.emplace_back(new PrecisionOp(B.mesh, model->getCova(i)));
+    pcss.emplace_back(new PrecisionOpCs(B.mesh, model->getCova(i)));
+    projs.emplace_back(new ProjMatrix(db.get(), B.mesh, 0));
+    projs2.emplace_back(new ProjMatrix(db.get(), B.mesh, 0));
+    if (pcss.back()->getQ() == nullptr || !spFrom(pcss.back()->getQ(), Qs[(size_t)i]) || !spFrom(projs.back().get(), As[(size_t)i]) || As[(size_t)i].nr != nd || As[(size_t)i].nc != n)
+    { ctx.fail("solve:pieces", "cannot read Q / A"); return; }
+  }
+  std::vector<LD> dinv;
+  VectorDouble var((size_t)nd);
+  for (int k = 0; k < nd; k++) { var[k] = c.var[(size_t)k] * totalSill; dinv.push_back(1.L / (LD)var[k]); }
+  CondSystem C;
+  if (!buildSystem(Qs, As, dinv, zc, C)) { ctx.fail("solve:system-not-PD", "Q + A'D^-1A is not positive definite"); return; }
+  if (C.kappa > 1e10L) { ctx.inconclusive("ill-conditioned"); return; }
+  LD nb2 = norm2(C.b);
+  ctx.label(nb2 < 1 ? "rhs-norm:<1" : "rhs-norm:>=1");
+  auto flat = [&](const std::vector<std::vector<double>>& v) {
+    std::vector<double> f;
+    for (auto& e : v) f.insert(f.end(), e.begin(), e.end());
+    return f;
+  };
+  std::vector<double> zv(z.begin(), z.end());
+  std::vector<std::vector<double>> xin((size_t)ns);
+  for (int i = 0; i < ns; i++)
+    for (int k = 0; k < n; k++) xin[(size_t)i].push_back(c.x[(size_t)(i * 7 + k) % c.x.size()]);
+
+  // ---- A. conjugate gradients of PrecisionOpMultiConditional (its residual is judged after the
+  //         Cholesky-based checks so that the recorded stopping-rule finding does not hide them)
+  std::vector<double> cgOut;
+  double cgEps = 0;
+  auto cgResidual = [&]() {
+    return residualOK(ctx, "cg-multi:residual", C, C.b, cgOut, sqrtl((LD)cgEps), fmt("conjugate gradients (eps %g, i.e. |r|^2 <= eps |b|^2)", cgEps));
+  };
+  {
+    PrecisionOpMultiConditional pmc;
+    for (int i = 0; i < ns; i++)
+      if (pmc.push_back(pops[(size_t)i].get(), projs[(size_t)i].get()) != 0) { ctx.fail("multi:push_back", "push_back refuses consistent operators"); return; }
+    pmc.setVarianceDataVector(var);
+    double eps = std::pow(10., -c.epsExp);
+    pmc.setEps(eps);
+    pmc.setNIterMax(200000);
+    ctx.at("PrecisionOpMultiConditional::computeRhs");
+    std::vector<std::vector<double>> rhs = pmc.computeRhs(zv);
+    std::vector<double> rf = flat(rhs);
+    if ((int)rf.size() != C.N) { ctx.fail("multi:computeRhs", "wrong size"); return; }
+    LD bmax = normInfV(C.b);
+    for (int k = 0; k < C.N; k++)
+      if (!(fabsl((LD)rf[(size_t)k] - C.b[(size_t)k]) <= 1e-10L * bmax + 1e-300L)) { ctx.fail("multi:computeRhs", fmt("component %d: %.17g, A'D^-1 z gives %.17Lg", k, rf[(size_t)k], C.b[(size_t)k])); return; }
+    ctx.at("PrecisionOpMultiConditional::evalDirect");
+    std::vector<std::vector<double>> yo((size_t)ns);
+    for (int i = 0; i < ns; i++) yo[(size_t)i].assign((size_t)n, 0.);
+    pmc.evalDirect(xin, yo);
+    {
+      std::vector<LD> xf = toLD(flat(xin)), yr, ya;
+      C.M.mul(xf, yr);
+      std::vector<double> yf = flat(yo);
+      LD sc = C.normM * normInfV(xf);
+      for (int k = 0; k < C.N; k++)
+        if (!(fabsl((LD)yf[(size_t)k] - yr[(size_t)k]) <= 1e-8L * sc)) { ctx.fail("multi:evalDirect", fmt("component %d: %.17g, (Q + A'D^-1A)x gives %.17Lg", k, yf[(size_t)k], yr[(size_t)k])); return; }
+    }
+    ctx.at("PrecisionOpMultiConditional::evalInverse");
+    std::vector<std::vector<double>> out((size_t)ns);
+    for (int i = 0; i < ns; i++) out[(size_t)i].assign((size_t)n, 0.);
+    pmc.evalInverse(rhs, out);
+    cgOut = flat(out);
+    cgEps = eps;
+  }
+  // ---- B. sparse Cholesky of PrecisionOpMultiConditionalCs
+  {
+    PrecisionOpMultiConditionalCs pcs;
+    for (int i = 0; i < ns; i++)
+      if (pcs.push_back(pcss[(size_t)i].get(), projs2[(size_t)i].get()) != 0) { ctx.fail("multi-cs:push_back", "push_back refuses consistent operators"); return; }
+    pcs.setVarianceDataVector(var);
+    ctx.at("PrecisionOpMultiConditionalCs::makeReady");
+    pcs.makeReady();
+    std::vector<std::vector<double>> rhs = pcs.computeRhs(zv), out((size_t)ns);
+    for (int i = 0; i < ns; i++) out[(size_t)i].assign((size_t)n, 0.);
+    ctx.at("PrecisionOpMultiConditionalCs::evalInverse");
+    pcs.evalInverse(rhs, out);
+    if (!residualOK(ctx, std::string("chol-multi:residual:") + (c.eigen ? "eigen" : "csparse"), C, C.b, flat(out), 0.L, "sparse Cholesky of Q + A'D^-1A")) return;
+    ctx.at("PrecisionOpMultiConditionalCs::computeLogDetOp");
+    double ld = pcs.computeLogDetOp(1);
+    LD ldr = cholLogDet(C.L);
+    if (!(fabsl((LD)ld - ldr) <= 1e-8L * (fabsl(ldr) + C.N))) { ctx.fail(std::string("chol-multi:logdet:") + (c.eigen ? "eigen" : "csparse"), fmt("log det = %.17g, dense reference %.17Lg", ld, ldr)); return; }
+    ctx.at("PrecisionOpMultiConditionalCs::computeQuadratic");
+    double q = pcs.computeQuadratic(zv);
+    LD zdz = 0, bu = 0;
+    for (int k = 0; k < nd; k++) zdz += zc[(size_t)k] * zc[(size_t)k] * dinv[(size_t)k];
+    for (int k = 0; k < C.N; k++) bu += C.b[(size_t)k] * C.u[(size_t)k];
+    if (!(fabsl((LD)q - (zdz - bu)) <= 1e3L * C.kappa * 2.220446e-16L * zdz + 1e-300L)) { ctx.fail(std::string("chol-multi:quadratic:") + (c.eigen ? "eigen" : "csparse"), fmt("z'Sigma^-1 z = %.17g, reference %.17Lg", q, zdz - bu)); return; }
+  }
+  ctx.nontrivial(nontrivialGeom(c.mesh, c.covs));
+  ctx.sig = Hash().add(ndim).add(c.mesh.kind).add(C.N).add(nd).add(ns).add(c.epsExp).add(c.tolExp).addq(c.data.zscale).add(c.eigen).h;
+  if (!c.eigen) { ctx.label("spdeop:skipped-csparse"); cgResidual(); return; }
+  // ProjMultiMatrix::createFromDbAndMeshes admits one mesh (or one per variable): single-structure models only
+  if (ns != 1) { ctx.label("spdeop:skipped-two-structures"); cgResidual(); return; }
+
+  // ---- C. SPDEOp (Eigen conjugate gradients through LinearOpCGSolver) and SPDEOpMatrix (Cholesky)
+  {
+    VectorMeshes meshes((size_t)ns, B.mesh);
+    ctx.at("buildInvNugget");
+    std::unique_ptr<MatrixSparse> invn(buildInvNugget(db.get(), model.get()));
+    Sp Nn;
+    if (!invn || !spFrom(invn.get(), Nn) || Nn.nr != nd || Nn.nc != nd) { ctx.fail("spdeop:invnoise-shape", "buildInvNugget returns a matrix of wrong shape"); return; }
+    std::vector<LD> ninv;
+    for (int k = 0; k < nd; k++)
+    {
+      if (Nn.row[(size_t)k].size() != 1 || !(Nn.get(k, k) > 0)) { ctx.fail("spdeop:invnoise-diagonal", "inverse nugget matrix is not a positive diagonal"); return; }
+      ninv.push_back(Nn.get(k, k));
+    }
+    CondSystem C2;
+    if (!buildSystem(Qs, As, ninv, zc, C2)) { ctx.fail("solve:system-not-PD", "Q + A'N A is not positive definite"); return; }
+    if (C2.kappa > 1e10L) { if (cgResidual()) ctx.inconclusive("ill-conditioned"); return; }
+    ctx.at("ProjMultiMatrix::createFromDbAndMeshes");
+    ProjMultiMatrix AM = ProjMultiMatrix::createFromDbAndMeshes(db.get(), meshes);
+    std::vector<double> xf = flat(xin);
+    std::vector<LD> yr;
+    C2.M.mul(toLD(xf), yr);
+    LD sc = C2.normM * normInfV(toLD(xf));
+    {
+      ctx.at("SPDEOpMatrix");
+      PrecisionOpMultiMatrix Qm(model.get(), meshes);
+      SPDEOpMatrix opm(&Qm, &AM, invn.get());
+      if (opm.getSize() != C2.N) { ctx.fail("spdeop-matrix:size", fmt("size %d, expected %d", opm.getSize(), C2.N)); return; }
+      ctx.at("SPDEOpMatrix::evalDirect");
+      VectorDouble y = opm.evalDirect(toVD(xf));
+      for (int k = 0; k < C2.N; k++)
+        if (!(fabsl((LD)y[k] - yr[(size_t)k]) <= 1e-8L * sc)) { ctx.fail("spdeop-matrix:evalDirect", fmt("component %d: %.17g, (Q + A'NA)x gives %.17Lg", k, y[k], yr[(size_t)k])); return; }
+      ctx.at("SPDEOpMatrix::kriging");
+      VectorDouble kr = opm.kriging(z);
+      if ((int)kr.size() != C2.N) { ctx.fail("spdeop-matrix:kriging-size", "kriging returns a vector of wrong size"); return; }
+      if (!residualOK(ctx, "spdeop-matrix:residual", C2, C2.b, kr.getVector(), 0.L, "SPDEOpMatrix::kriging (Cholesky)")) return;
+    }
+    if (!cgResidual()) return;
+    {
+      ctx.at("SPDEOp");
+      PrecisionOpMulti Qf(model.get(), meshes);
+      MatrixSquareSymmetricSim invp(invn.get());
+      SPDEOp opf(&Qf, &AM, &invp);
+      double tol = std::pow(10., -c.tolExp);
+      opf.setTolerance(tol);
+      opf.setMaxIterations(50 * C2.N + 1000);
+      ctx.at("SPDEOp::evalDirect");
+      VectorDouble y = opf.evalDirect(toVD(xf));
+      for (int k = 0; k < C2.N; k++)
+        if (!(fabsl((LD)y[k] - yr[(size_t)k]) <= 1e-8L * sc)) { ctx.fail("spdeop-free:evalDirect", fmt("component %d: %.17g, (Q + A'NA)x gives %.17Lg", k, y[k], yr[(size_t)k])); return; }
+      ctx.at("SPDEOp::kriging");
+      VectorDouble kr = opf.kriging(z);
+      if ((int)kr.size() != C2.N) { ctx.fail("spdeop-free:kriging-size", "kriging returns a vector of wrong size"); return; }
+      if (opf.getError() <= tol)
+      {
+        if (!residualOK(ctx, "spdeop-free:cg-residual", C2, C2.b, kr.getVector(), 2.L * (LD)tol, fmt("LinearOpCGSolver (tolerance %g, %d iterations, reported error %g)", tol, opf.getIterations(), opf.getError()))) return;
+      }
+      else
+        ctx.label("eigen-cg:not-converged");
+    }
+  }
+}
+VERIF_SUB(solves, SolveCase, genSolve, runSolve);
+
+// =====================================================================================
+// sub-property "powers": (a, continued) the matrix-free powers used by simulation (P^-1/2) and by
+// evalInverse (P^-1) apply Lambda^-1 p(S) [Lambda^-1] with the library's own Chebyshev polynomial p
+// (each case fits two Chebyshev series on 2^20 points: slow, few cases)
+// =====================================================================================
+struct PowCase
+{
+  MeshSpec mesh;
+  CovSpec cov;
+  std::vector<double> w;
+  template<class A> void io(A& a) { a("mesh", mesh)("cov", cov)("w", w); }
+};
+static PowCase genPow()
+{
+  PowCase c;
+  c.mesh = genMeshSpec(120, {0, 1, 2, 3});
+  c.cov = genCov(c.mesh.ndim, c.mesh.cell(), G::pick<double>({1e-4, 1., 1e4}), false);
+  for (int i = 0; i < 40; i++) c.w.push_back(G::r(-8, 8, 8));
+  return c;
+}
+// y = sum_k c_k T_k((2 S - (a+b) I) / (b-a)) x
+static void chebApply(const Sp& S, const std::vector<LD>& cf, LD a, LD b, const std::vector<LD>& x, std::vector<LD>& y, LD* sumAbs)
+{
+  int n = S.nr;
+  LD v1 = 2.L / (b - a), v2 = -(b + a) / (b - a);
+  std::vector<LD> t0 = x, t1((size_t)n), t2((size_t)n), sx;
+  S.mul(x, sx);
+  for (int i = 0; i < n; i++) t1[(size_t)i] = v1 * sx[(size_t)i] + v2 * x[(size_t)i];
+  y.assign((size_t)n, 0.L);
+  *sumAbs = 0;
+  for (size_t k = 0; k < cf.size(); k++)
+  {
+    *sumAbs += fabsl(cf[k]);
+    if (k == 0) { for (int i = 0; i < n; i++) y[(size_t)i] += cf[0] * t0[(size_t)i]; continue; }
+    if (k == 1) { for (int i = 0; i < n; i++) y[(size_t)i] += cf[1] * t1[(size_t)i]; continue; }
+    S.mul(t1, sx);
+    for (int i = 0; i < n; i++) t2[(size_t)i] = 2.L * (v1 * sx[(size_t)i] + v2 * t1[(size_t)i]) - t0[(size_t)i];
+    for (int i = 0; i < n; i++) y[(size_t)i] += cf[k] * t2[(size_t)i];
+    t0 = t1;
+    t1 = t2;
+  }
+}
+static void runPow(const PowCase& c, Ctx& ctx)
+{
+  int ndim = c.mesh.ndim;
+  resetGlobals(ndim, true);
+  ctx.label(std::string("mesh:") + kindName(c.mesh.kind));
+  ctx.label(fmt("ndim:%d", ndim));
+  Built B;
+  if (!buildMesh(c.mesh, B, ctx)) return;
+  if (B.nel == 0) { ctx.inconclusive("no-element"); return; }
+  std::unique_ptr<Model> model(buildModel(ndim, {c.cov}, 0.));
+  if (!model) { ctx.fail("model-null", "model construction failed"); return; }
+  ctx.at("PrecisionOp(mesh,cova)");
+  PrecisionOp pop(B.mesh, model->getCova(0));
+  int n = B.nap;
+  Sp S;
+  if (!spFrom(pop.getShiftOp()->getS(), S) || S.nr != n) { ctx.fail("S-shape", "shift operator has a wrong shape"); return; }
+  std::vector<LD> lam = toLD(pop.getShiftOp()->getLambdas().getVector());
+  LD bmax = (LD)pop.getShiftOp()->getMaxEigenValue();
+  std::vector<double> w = cut(c.w, n);
+  std::vector<LD> wl = toLD(w);
+  // simulation: y = Lambda^-1 p_{-1/2}(S) w
+  {
+    std::vector<double> y((size_t)n, 0.);
+    ctx.at("PrecisionOp::evalSimulate");
+    pop.evalSimulate(constvect(w), vect(y));
+    VectorDouble cf = pop.getPolyCoeffs(EPowerPT::MINUSHALF);
+    if (cf.size() < 2) { ctx.fail("powers:coeffs", "no Chebyshev coefficient for the power -1/2"); return; }
+    ctx.label(cf.size() > 200 ? "cheb-terms:>200" : "cheb-terms:<=200");
+    std::vector<LD> ref, cl(cf.begin(), cf.end());
+    LD sa;
+    chebApply(S, cl, 0.L, bmax, wl, ref, &sa);
+    LD sc = 0;
+    for (int i = 0; i < n; i++) { ref[(size_t)i] /= lam[(size_t)i]; sc = std::max(sc, sa * normInfV(wl) / lam[(size_t)i]); }
+    for (int i = 0; i < n; i++)
+      if (!(fabsl((LD)y[(size_t)i] - ref[(size_t)i]) <= 1e-8L * sc))
+      { ctx.fail("powers:simulate", fmt("evalSimulate component %d = %.17g, Lambda^-1 p(S) w gives %.17Lg (scale %Lg)", i, y[(size_t)i], ref[(size_t)i], sc)); return; }
+  }
+  // inverse: x = Lambda^-1 p_{-1}(S) Lambda^-1 b
+  {
+    std::vector<double> x((size_t)n, 0.);
+    ctx.at("PrecisionOp::evalInverse");
+    pop.evalInverse(constvect(w), x);
+    VectorDouble cf = pop.getPolyCoeffs(EPowerPT::MINUSONE);
+    if (cf.size() < 2) { ctx.fail("powers:coeffs", "no Chebyshev coefficient for the power -1"); return; }
+    std::vector<LD> in((size_t)n), ref, cl(cf.begin(), cf.end());
+    for (int i = 0; i < n; i++) in[(size_t)i] = wl[(size_t)i] / lam[(size_t)i];
+    LD sa;
+    chebApply(S, cl, 0.L, bmax, in, ref, &sa);
+    LD sc = 0;
+    for (int i = 0; i < n; i++) { ref[(size_t)i] /= lam[(size_t)i]; sc = std::max(sc, sa * normInfV(in) / lam[(size_t)i]); }
+    for (int i = 0; i < n; i++)
+      if (!(fabsl((LD)x[(size_t)i] - ref[(size_t)i]) <= 1e-8L * sc))
+      { ctx.fail("powers:inverse", fmt("evalInverse component %d = %.17g, Lambda^-1 p(S) Lambda^-1 b gives %.17Lg (scale %Lg)", i, x[(size_t)i], ref[(size_t)i], sc)); return; }
+  }
+  ctx.nontrivial(nontrivialGeom(c.mesh, {c.cov}));
+  ctx.sig = Hash().add(ndim).add(c.mesh.kind).add(n).addq(c.cov.param).addq(c.cov.ranges[0] / c.mesh.cell()).h;
+}
+VERIF_SUB(powers, PowCase, genPow, runPow);
 
 VERIF_MAIN()
